@@ -20,7 +20,7 @@ RULE_T = ('Model-based histories: a pool of %d fixed module configurations (ever
         'mode / option; separate row-column filters; layouts, masks, scattering families) x 3 input recipes of different shapes; each search unit owns a few (configuration, input) pairs whose GOLDEN '
         'result was computed as the very first library call of a fresh interpreter. Hypothesis draws sequences of up to 40 '
         'operations: construct(cfg, default dtype) (many instances coexist), call(instance, input, no_grad | requires_grad | '
-        'requires_grad+backward), concurrent batch of 2..8 calls on a thread pool (same or different instances), load of a filter '
+        'requires_grad+backward), a call with an input of the other precision (outcome ignored), concurrent batch of 2..8 calls on a thread pool (same or different instances), load of a filter '
         'table, lossless dtype round trip of an instance, call of an instance built in the other precision, drop(instance). '
         'Invariants after every step: arguments and coefficient lists bitwise unchanged (same list, same element identities); '
         'result bitwise equal to the golden; module buffers/parameters bitwise unchanged. The interpreter running a shard is never '
@@ -132,6 +132,7 @@ def _case(draw, unit):
         st.tuples(st.just('load'), st.sampled_from(TABLES)),
         st.tuples(st.just('roundtrip'), st.integers(0, 15)),
         st.tuples(st.just('other_dtype'), st.integers(0, n - 1)),
+        st.tuples(st.just('wrong_dtype_call'), st.integers(0, 15)),
         st.tuples(st.just('drop'), st.integers(0, 15)))
     first = [('construct', 0, 'f32'), ('construct', n - 1, 'f32')]
     ops = first + draw(st.lists(op, min_size=4, max_size=38))
@@ -325,6 +326,23 @@ def run_case(case):
             r.label('call_other_dtype')
             if not one_call(inst, oi, 'no_grad', what):
                 return r
+        elif kind == 'wrong_dtype_call' and insts:
+            # an input of the other precision on the same instance: the library may reject it or compute; either way
+            # it must leave nothing behind (checked by the buffers snapshot and the goldens of all later calls)
+            inst = insts[op[1] % len(insts)]
+            ci, ii = [o for o in own if o[0] == inst.cfg_key][0]
+            cfg, N, C, rx = cfg_with_input(ci, ii)
+            other = 'f64' if inst.dtype == 'f32' else 'f32'
+            xo = core.make(rx, [N, C, xf.total_in(cfg)]).astype(dwtu.ndt(other))
+            with torch.no_grad():
+                lib(inst.fn, xf.pack(xo, cfg, dwtu.tdt(other)))
+            r.label('wrong_dtype_call')
+            if inst.snap is not None and not inst.converted:
+                now = inst.m.state_dict()
+                for k, v in inst.snap.items():
+                    if k not in now or now[k].dtype != v.dtype or not torch.equal(now[k], v):
+                        return r.fail('module_state_changed', '%s: a call with a %s input changed the module buffer %s' %
+                                      (what, other, k))
         elif kind == 'drop' and len(insts) > 1:
             insts.pop(op[1] % len(insts))
     r.nontrivial = any(len(i.shapes) >= 2 for i in insts) and len(used_cfgs) >= 2
